@@ -55,6 +55,7 @@ func checkC04(c *Ctx, r *Report) {
 	ctorByTypeOnly(c, r, "C04.R2.ctor-by-type")
 	pointerLimitAdmitsOwnOutput(c, r, "C04.R5.pointer-limit")
 	copyKeepsType(c, r, "C04.R1.copy-type")
+	pointerReaders(c, r, "C04.R5.pointer-readers")
 }
 
 // c04R4b: the map accessors index with the key they are given (no normalisation inside find/insert).
